@@ -736,6 +736,16 @@ def scenario_probes(run, kinds, modules=('std', 'safe'), backends=('plain', 'dic
                                 ops += [{'op': 'call', 'a': keys[ms]}, {'op': 'call', 'a': keys[ms + 1]}]
                                 ops += [{'op': 'call', 'a': keys[(hot + 1) % ms]}, {'op': 'call', 'a': keys[ms + 2]}]
                                 run.jobs.append((dict(base), ops, None))
+                    if 'replaced' in kinds and backend != 'plain' and ms + 3 <= NX:
+                        # evict to A, load back, replace the archive by B, evict again (must reach B), ask again (from B)
+                        for sync in (False, True):
+                            ops = [{'op': 'call', 'a': a} for a in keys[:ms + 1]]        # keys[0] is evicted to A (lru)
+                            ops += [{'op': 'call', 'a': a} for a in keys[:ms + 1]]       # everything comes back from A in turn
+                            ops += [{'op': 'sync', 'clear': True}] if sync else [{'op': 'set_archive', 'x': 2}]
+                            ops += [{'op': 'call', 'a': a} for a in keys[ms + 1:ms + 3]]  # new keys push the old ones out
+                            ops += [{'op': 'call', 'a': a} for a in keys[:ms + 1]] + [{'op': 'info'}]
+                            run.jobs.append((dict(base), ops, None))
+                            run.jobs.append((dict(base, purge=True), ops, None))
                     if 'peek' in kinds:
                         ops = []
                         for n, a in enumerate(keys[:ms]):
@@ -785,7 +795,7 @@ def check_C02(tier):
     scenario_second_instance(run, 1500 if t else 250, 30 if t else 20)
     scenario_random(run, ALLALG, ['std', 'safe'], ['plain', 'dictarch', 'file', 'dir', 'sql', 'direct-dict', 'direct-dir'],
                     1500 if t else 200, 40 if t else 25, variants=('plain', 'plain', 'ignore_y', 'ignore_1', 'tol0'))
-    scenario_probes(run, {'compaction', 'clear'}, backends=('dictarch', 'file'))
+    scenario_probes(run, {'compaction', 'clear', 'replaced'}, backends=('dictarch', 'file'))
     scenario_recursive(run, 1000 if t else 150, backends=('dictarch', 'file', 'dir'))
     # histories in which the archive object is replaced (f.archive(B)) between evictions and re-loads
     scenario_random(run, BOUNDED + ['inf'], ['std', 'safe'], ['dictarch', 'file', 'dir'], 600 if t else 120, 40 if t else 30,
@@ -852,6 +862,7 @@ def check_C07(tier):
     scenario_random(run, ['no'] + BOUNDED, ['std', 'safe'], ['dictarch', 'file', 'dir', 'sql'], 1500 if t else 250,
                     40 if t else 25, profile='setarch')
     scenario_recursive(run, 800 if t else 120, algs=BOUNDED, backends=('dictarch', 'file', 'dir'))
+    scenario_probes(run, {'replaced'}, backends=('dictarch', 'file', 'sql'))
     # focused walks: evictions interleaved with replacing the archive (evict -> reload -> f.archive(B) -> evict)
     foc = []
     for alg in BOUNDED:
